@@ -150,7 +150,7 @@ func (proj *Project) loadIndex() error {
 				doc:     info.Doc,
 				deps:    deps,
 				depData: info.Dependencies,
-				data:    info.Data,
+				data:    info.stamp(),
 			}
 		}
 
